@@ -24,14 +24,17 @@ def unfold_sites(g, rng, k=2):
     return [("unfold", i, j) for i, j in (first[:2] + rest)[: k + len(first[:2])]]
 
 
-def run_transforms(grammars, sr, strs, rng, hashseed=0, with_values=True):
+def run_transforms(grammars, sr, strs, rng, hashseed=0, with_values=True, extra=None, fresh=True, shuffle=False):
     """returns, per grammar, a list of (transform, result) where result is the driver's
     {"ok": {...}} / {"err": ...}"""
     jobs = []
     plans = []
     for g, xs in zip(grammars, strs):
-        ts = BASE + unfold_sites(g, rng)
-        jobs.append({"g": g, "sr": sr, "queries": [{"op": "transform", "t": list(t), "xs": xs if with_values else None, "fresh": True, "timeout": 30} for t in ts]})
+        ts = BASE + unfold_sites(g, rng) + (extra(g) if extra else [])
+        if shuffle:
+            ts = list(ts)
+            rng.shuffle(ts)
+        jobs.append({"g": g, "sr": sr, "queries": [{"op": "transform", "t": list(t), "xs": xs if with_values else None, "fresh": fresh, "timeout": 30} for t in ts]})
         plans.append(ts)
     res = run_jobs(jobs, hashseed=hashseed)
     return [list(zip(ts, r)) for ts, r in zip(plans, res)]
@@ -47,4 +50,5 @@ POST = {
     "separate_start": "start_not_on_rhs",
     "separate_terminals": "terminals_separated",
     "trim": "all_useful",
+    "sub_trim": "all_useful",
 }
